@@ -566,21 +566,15 @@ func (t *Terminal) handleKey(key rune) (line []string, ok bool) {
 		t.advanceCursor(visualLength(t.prompt))
 		t.setLine(t.line, t.pos)
 	case keyEnter:
-		strline := strings.TrimSpace(string(t.line))
+		// split string until queries terminated by ;
+		stmts, complete := splitStatements(t.line)
 		// if the last thing entered was a query terminator
-		if len(strline) == 0 || strline[len(strline)-1:] == ";" {
+		if complete {
 			// not sure what this is for
 			t.moveCursorToPos(len(t.line))
 			t.queue([]rune("\r\n"))
 
-			// split string until queries terminated by ;
-			begin := 0
-			for cur := 0; cur < len(t.line); cur++ {
-				if t.line[cur] == 59 {
-					line = append(line, strings.TrimSpace(string(t.line[begin:cur+1])))
-					begin = cur + 1
-				}
-			}
+			line = stmts
 
 			ok = true
 			t.line = t.line[:0]
@@ -623,6 +617,33 @@ func (t *Terminal) handleKey(key rune) (line []string, ok bool) {
 		t.addKeyToLine(key)
 	}
 	return
+}
+
+// splitStatements cuts line after every ';' that is not inside a single- or
+// double-quoted literal (a backslash escapes the next character inside quotes,
+// as in the SQL scanner). complete reports whether the line is blank or ends
+// with a statement terminator, i.e. nothing but white space follows the last
+// terminator and no quote is left open.
+func splitStatements(line []rune) (stmts []string, complete bool) {
+	begin := 0
+	var quote rune
+	for cur := 0; cur < len(line); cur++ {
+		c := line[cur]
+		switch {
+		case quote != 0:
+			if c == '\\' {
+				cur++
+			} else if c == quote {
+				quote = 0
+			}
+		case c == '\'' || c == '"':
+			quote = c
+		case c == ';':
+			stmts = append(stmts, strings.TrimSpace(string(line[begin:cur+1])))
+			begin = cur + 1
+		}
+	}
+	return stmts, quote == 0 && len(strings.TrimSpace(string(line[begin:]))) == 0
 }
 
 // addKeyToLine inserts the given key at the current position in the current
